@@ -26,6 +26,10 @@ structure IState where
   backticksScanned : Bool := false       -- `state.backticksScanned`
   delimiters : List Delim := []          -- `state.delimiters` (one list: no rule of the modelled chains opens a nested scope)
   linkLevel : Int := 0                   -- `state.linkLevel` (written by `html_inline`; read by `linkify` only)
+  cache : List (Nat × Nat) := []         -- `state.cache`: position memo of `skipToken` (the first entry for a key counts)
+  scopes : List (List Delim) := []       -- `state._prev_delimiters`: the delimiter lists of the enclosing scopes
+  openAt : List Nat := []                -- token index of the opening token of each open scope (innermost first)
+  metas : List (Nat × List Delim) := []  -- closed scopes: index of the opening token ↦ its delimiter list (`tokens_meta`)
 deriving Repr
 
 def IState.init (src : List Char) : IState :=
